@@ -145,7 +145,7 @@ pub fn run(a: &Args) {
             Range<u32>, RangeInclusive<i16>, RangeFrom<u64>, RangeTo<char>,
             heapless::Vec<u8, 0>, heapless::Vec<u32, 5>, heapless::Vec<(u16, bool), 3>, heapless::String<0>, heapless::String<16>,
             UnitS, NewS, TupS, NamedS, EmptyS, Gen1<u8>, Gen1<Option<char>>, Gen1<NamedS>, Nested,
-            E1, E2, Mixed<u8>, Mixed<NamedS>, Mixed<Mixed<u16>>, E127, E128, E129, Option<E2>, [Mixed<u8>; 2], (E1, E128),
+            E1, E2, Mixed<u8>, Mixed<NamedS>, Mixed<Mixed<u16>>, Level, Packet, E127, E128, E129, Option<E2>, [Mixed<u8>; 2], (E1, E128),
         );
         // types outside the MaxSize corpus
         let strs: Vec<String> = vec![String::new(), "a".into(), "héllo wörld".into(), "x".repeat(200), String::from_utf8(crate::gen::gen_string(r, 40)).unwrap()];
